@@ -340,6 +340,57 @@ def _through_params(prog, classes, f, call, v, vf, depth=2):
     yield f, call, v, vf
 
 
+def _flagged_wrapper_sites(prog, classes, vf, p):
+    """vf wraps the constructor call and decides with boolean parameters what it passes as `p` (e.g.
+    `if copy_constraints: lst = lst.copy()`): for every call site of vf in the class family the wrapper is interpreted
+    abstractly (rules/absint.py) with the constants that site passes; the value that reaches the constructor's keyword
+    is fresh when it is a copy / new container.  Returns [(caller, call, fresh, expression shown)] or None."""
+    from . import absint
+    flags = [q for q in vf.params if isinstance(vf.param_default(q), ast.Constant) and
+             isinstance(vf.param_default(q).value, bool)]
+    if not flags:
+        return None
+    out = []
+    for g in prog.all_functions():
+        if g.owner_class not in classes:
+            continue
+        for c2 in calls(g):
+            if not (isinstance(c2.func, ast.Attribute) and isinstance(c2.func.value, ast.Name) and
+                    c2.func.value.id in ('self', 'cls') and c2.func.attr == vf.name):
+                continue
+            hp = [q for q in vf.params if q not in ('self', 'cls')]
+            env = {q: vf.param_default(q).value for q in flags}
+            for q, a in list(zip(hp, c2.args)) + [(k.arg, k.value) for k in c2.keywords if k.arg]:
+                if q in flags:
+                    if not (isinstance(a, ast.Constant) and isinstance(a.value, bool)):
+                        return None
+                    env[q] = a.value
+            paths = absint.Interp(vf, {}).run(env=env)
+            fresh, shown, vt = True, ast.Name(id=p, ctx=ast.Load()), None
+            found = False
+            for q_ in paths:
+                if q_.outcome[0] != 'return':
+                    continue
+                t = absint._t(q_.outcome[1])
+                if not (isinstance(t, tuple) and t[0] == 'call' and t[1] == ('attr', ('name', 'self'), '__class__')):
+                    continue
+                kw = dict(x for x in t[2] if isinstance(x, tuple) and len(x) == 2 and isinstance(x[0], str))
+                if p not in kw:
+                    continue
+                found = True
+                vt = kw[p]
+                is_new = isinstance(vt, tuple) and vt[0] == 'call' and (
+                    (vt[1][0] == 'attr' and vt[1][2] in ('copy', 'deepcopy')) or
+                    vt[1] in (('name', 'list'), ('name', 'dict'), ('name', 'set')))
+                fresh = fresh and is_new
+                if not is_new:
+                    shown = ast.Name(id=absint.fmt(vt)[:60], ctx=ast.Load())
+            if not found:
+                return None
+            out.append((g, c2, fresh, shown, vt))
+    return out or None
+
+
 def check_constructor_store(ctx, cls_key=DSG, rule='A11s'):
     """Containers of a graph that are mutated in place somewhere must not be shared between an existing and a
     new graph object: the constructor copies its argument, or every constructor call passes a fresh object."""
@@ -401,6 +452,17 @@ def check_constructor_store(ctx, cls_key=DSG, rule='A11s'):
                             continue
                         for kw_arg, v, vf in _effective_keywords(prog, f, call):
                             if kw_arg == p:
+                                flagged = _flagged_wrapper_sites(prog, classes, vf, p) \
+                                    if isinstance(v, ast.Name) and v.id not in vf.params and \
+                                    not _fresh_value(vf, v) else None
+                                if flagged:
+                                    # a wrapper that copies under a boolean parameter: decided per call site of the
+                                    # wrapper with the flag values that site passes
+                                    for bf, bcall, fresh, shown, _vt in flagged:
+                                        sites += 1
+                                        if not fresh:
+                                            bad.append((bf, bcall, shown))
+                                    continue
                                 for bf, bcall, bv, bvf in _through_params(prog, classes, f, call, v, vf):
                                     sites += 1
                                     if not _fresh_value(bvf, bv):
